@@ -13,6 +13,11 @@ def run():
     chk.add_model("PuSuspendImpl/variant resume_notifies_once (must violate)", r, note="violated: %s" % r["violated"])
     r2 = vlib.model_check("PuSuspendImpl", "PuSuspendImpl_dev2.cfg", expect_ok=False, timeout=600)
     chk.add_model("PuSuspendImpl/variant suspend_returns_in_pre_sleep (must violate)", r2, note="violated: %s" % r2["violated"])
+    # when does an idle worker take over staged work of (sleeping) colleagues: threshold vs. bottom-of-loop reset
+    for cfg in ("IdleStealImpl.cfg", "IdleStealImpl_big.cfg", "IdleStealImpl_nosteal.cfg"):
+        chk.add_model("IdleStealImpl/%s" % cfg[:-4], vlib.model_check("IdleStealImpl", cfg, timeout=600))
+    r3 = vlib.model_check("IdleStealImpl", "IdleStealImpl_dev.cfg", expect_ok=False, timeout=600)
+    chk.add_model("IdleStealImpl/variant threshold_full (must violate Drains)", r3, note="violated: %s" % r3["violated"])
     (binary,) = vlib.build_harness(["pu_harness"])
     n = 4 if chk.thorough() else 1
     runs = []
